@@ -115,6 +115,25 @@ def reachable(order, body, d, r):
     return order[id(r)] > order[id(d)]
 
 
+def _result_is_tested(call):
+    """the result of this call decides a branch right where it is made (if / loop condition, operand of && || !, condition of ?:): the caller asks
+    "is this input yours?". A result that is stored, returned or passed on is a VALUE (a flag such as "the name was quoted"), and `false` no answer about the input"""
+    n, p = call, call.parent
+    while p is not None and (p.kind in ('ParenExpr', 'ImplicitCastExpr') or (p.kind == 'UnaryOperator' and p.opcode == '!')):
+        n, p = p, p.parent
+    if p is None:
+        return False
+    if p.kind in ('IfStmt', 'WhileStmt', 'ConditionalOperator'):
+        return bool(p.inner) and p.inner[0] is n
+    if p.kind == 'DoStmt':
+        return len(p.inner) > 1 and p.inner[1] is n
+    if p.kind == 'ForStmt':
+        return n in p.inner[:-1]
+    if p.kind == 'BinaryOperator' and p.opcode in ('&&', '||'):
+        return True
+    return False
+
+
 def run(P, rep):
     rep.rule(RULE, 'a function with a boolean or pointer result and a "not mine" exit (`return false` / `return NULL`, after which the caller reads the same input another way) issues a diagnostic only where '
                    'no "not mine" exit is still ahead: the test that the input is its own dominates every diagnostic about it (a valid program that another reading accepts is not '
@@ -146,6 +165,9 @@ def run(P, rep):
             acc = [r for r in rets if not _const_false(r)]
             if not rej or not acc:
                 continue
+            sites = [c for un2 in UNITS if units.get(un2) is not None for fd2 in units[un2].functions.values() for c in fd2.calls(f)]
+            if not sites or not all(_result_is_tested(c) for c in sites):
+                continue            # some caller keeps the result as a value: `false` is data, not "not mine"
             diags = [c for c in body.walk() if c.kind == 'CallExpr' and c.callee() in may]
             stats['recognisers'][('%s:%s' % (un, f))] = {'not_mine_exits': len(rej), 'diagnostics': len(diags)}
             seen = {}
